@@ -438,7 +438,7 @@ def write_evidence(prop, tier, seed, t0, proof, coverage_extra, violations, assu
     cov = dict(
         obligations=proof.get("obligations", 0),
         discharged=proof.get("discharged", 0),
-        checker_cmd="tools/translate.py (tables regenerated from the Rust source) + make -C coq props/%s.vo gen/Ob%s.vo (coqc 8.16.1, full .vo; the gen target only for C01 C02 C03 C04 C05 C06 C08 C09 C10 C11 C12 C15 C17 C19 C20) + coqc Print Assumptions per theorem; ./check %s --tier %s" % (prop, prop, prop, tier),
+        checker_cmd="tools/translate.py (tables regenerated from the Rust source) + make -C coq props/%s.vo gen/Ob%s.vo (coqc 8.16.1, full .vo; the gen target only for C01 C02 C03 C04 C05 C06 C07 C08 C09 C10 C11 C12 C14 C15 C17 C19 C20) + coqc Print Assumptions per theorem; ./check %s --tier %s" % (prop, prop, prop, tier),
         trusted_base=TRUSTED_BASE,
         theorem_assumptions=proof.get("assumptions", {}),
         source_translation=proof.get("translation", {}),
